@@ -14,7 +14,7 @@ theorem isSome_true_iff {α} (o : Option α) : o.isSome = true ↔ o ≠ none :=
 
 /-- the record holds values of the Rust field types -/
 theorem inType_of_supplied (p : Parsed) (tr : Truth) (hok : TruthOk tr) (hS : Supplied p tr)
-    (hts : -9000000000000 ≤ tr.tsv ∧ tr.tsv ≤ 9000000000000) : InType p := by
+    (hts : -10000000000000 ≤ tr.tsv ∧ tr.tsv ≤ 10000000000000) : InType p := by
   obtain ⟨hY1, hY2, ho1, ho2⟩ := hok.vd
   have hMIN : MIN_YEAR = -262143 := rfl
   have hMAX : MAX_YEAR = 262142 := rfl
@@ -382,5 +382,272 @@ theorem family_date (is : List Item) (Y : Int) (o : Nat) (hvd : VD Y o) (text : 
       exact group_determinate _ _ _ _ _ _ IY hT.isoyear hT.isoyear_div hT.isoyear_mod hg2 hI.1)
     (uses_of_tracks p' _ _ hT hfull)
   simp only [ParseFrom.resolve, hd, Parsed.RP.bind]
+
+/-! ### times -/
+
+theorem yearExpressible_1970 (a b c d : Bool) : yearExpressible a b c d 1970 := by
+  unfold yearExpressible
+  refine ⟨fun _ _ _ => by omega, fun _ => by omega, fun _ => by omega, fun _ => by omega⟩
+
+/-- the fraction the format prints, as the nanosecond field every fraction item must carry -/
+theorem frac_conditions (is : List Item) (t : Time) (htv : TValid t) (hfull : fullTime (carries is) = true)
+    (hEf : ∀ it ∈ is, onSome (itemFracDigits it) fun k => cutFrac t.frac k = cutFrac t.frac (fracDigits is)) :
+    (∀ it ∈ is, onSome (itemFracDigits it) fun k => cutFrac t.frac k = (truncTime is t).frac % 1000000000) ∧
+    ((carries is).nano = false → (truncTime is t).frac % 1000000000 = 0) ∧
+    0 ≤ (truncTime is t).frac % 1000000000 ∧ (truncTime is t).frac % 1000000000 ≤ 999999999 := by
+  obtain ⟨_, _, t3, t4⟩ := htv
+  obtain ⟨c1, c2⟩ := cutFrac_bounds t.frac (fracDigits is) t3
+  have hfrac : (truncTime is t).frac = (if (carries is).second = false then 0 else
+      (if t.frac ≥ 1000000000 then 1000000000 + cutFrac t.frac (fracDigits is) else cutFrac t.frac (fracDigits is))) := by
+    by_cases hs : (carries is).second = false <;> simp [truncTime, hs]
+  have hmod : (carries is).second = true → (truncTime is t).frac % 1000000000 = cutFrac t.frac (fracDigits is) := by
+    intro hs
+    rw [hfrac]
+    simp only [hs, Bool.true_eq_false, if_false]
+    split <;> omega
+  refine ⟨fun it hm => ?_, fun hn => ?_, by omega, by omega⟩
+  · have h := hEf it hm
+    cases hk : itemFracDigits it with
+    | none => simp [onSome]
+    | some k =>
+      rw [hk] at h
+      simp only [onSome] at h ⊢
+      have hnano : (carries is).nano = true :=
+        carries_mem Carries.nano mono_nano it (fun cr => frac_item_sets cr it k hk) is {} hm
+      have hsec : (carries is).second = true := by
+        simp only [fullTime, Bool.and_eq_true, Bool.or_eq_true, Bool.not_eq_true'] at hfull
+        rcases hfull.2 with h' | h'
+        · rw [hnano] at h'; cases h'
+        · exact h'
+      rw [hmod hsec]; exact h
+  · rw [hfrac]
+    have h0 : cutFrac t.frac (fracDigits is) = 0 := by
+      rw [fracDigits_zero is hn]; exact (cutFrac_forms t.frac).2.2.2
+    split
+    · rfl
+    · rw [h0]; split <;> omega
+
+/-- **round trip, target `NaiveTime`** (proved items): the result is the time cut to the printed
+precision -/
+theorem family_time (is : List Item) (t : Time) (htv : TValid t) (text : List Nat)
+    (hp : ∀ it ∈ is, provedItem it = true) (hU : Unambiguous is .time) (hsafe : spaceSafe is = true)
+    (hE : expressible is (.time t))
+    (hfmt : ParseFrom.formatItemsOf (.time t) is = Format.wok text) :
+    ∃ p', Parse.parse Parsed.new text is = .ok p' ∧
+      ParseFrom.resolve .time p' = .ok (.ok (.time (truncTime is t))) := by
+  have hvd : VD 1970 1 := by unfold VD; decide
+  have hw : (dateOfYo 1970 1).iso_week = .ok 2017306 := by decide +kernel
+  have hwdn : ((Weekday.thu.toNat : Nat) : Int) = weekdayOf (dayNumYo 1970 ((1 : Nat) : Int)) := by decide
+  have hiy : IsoWeek.year 2017306 = 1970 := by decide
+  have hiw : IsoWeek.week 2017306 = 1 := by decide
+  obtain ⟨_, hsep, hg1, hg2, hfull⟩ := hU
+  obtain ⟨_, hEl, _, _, hEf⟩ := hE
+  simp only [exprLeap, shown, onSome] at hEl
+  simp only [exprFrac, shown, onSome] at hEf
+  obtain ⟨hF, hnone, nv1, nv2⟩ := frac_conditions is t htv hfull hEf
+  let tr : Truth := ⟨1970, 1, 1970, 1, .thu, t, (truncTime is t).frac % 1000000000, 0, 0⟩
+  let c : Ctx := ⟨none, some t, none⟩
+  have hcok : CtxOk c := ⟨fun d h => (by cases h), fun t' h => (by cases h; exact htv), fun x h => (by cases h)⟩
+  have hc : CtxTruth c tr :=
+    ⟨fun d h => (by cases h), fun t' h => (by cases h; exact ⟨rfl, htv⟩), fun x h => (by cases h),
+     fun v h => (by simp [numVal, c] at h)⟩
+  have hok : TruthOk tr :=
+    ⟨hvd, ⟨by simp [tr], by simp [tr]⟩, ⟨by simp [tr], by simp [tr]⟩, htv, ⟨nv1, nv2⟩,
+     ⟨by simp [tr], by simp [tr]⟩, hwdn, ⟨_, hw, hiy, hiw⟩⟩
+  obtain ⟨hexp, hx, hy⟩ := side_conditions c tr hc is (yearExpressible_1970 _ _ _ _) (yearExpressible_1970 _ _ _ _) hF
+  obtain ⟨p', hparse, hS, hT⟩ := fields_of_format c hcok tr hc hok is text hp hexp hx hsep hsafe hy hfmt
+  refine ⟨p', hparse, ?_⟩
+  obtain ⟨h1, h2, h3⟩ := time_of_supplied is p' tr hok hS hT hfull hEl rfl hnone
+  have ht := Chrono.Props.C14.time_complete p' (truncTime is t) h1 h2 h3
+  simp only [ParseFrom.resolve, ht, Parsed.RP.bind]
+
+/-! ### date-times -/
+
+/-- the common part of the two date-time targets: the record resolves (through
+`to_naive_datetime_with_offset off'`) to the local reading cut to the printed precision -/
+theorem family_datetime_core (is : List Item) (Y : Int) (o : Nat) (hvd : VD Y o) (t : Time) (htv : TValid t)
+    (c : Ctx) (hcd : c.date = some (dateOfYo Y o)) (hct : c.time = some t)
+    (hco : ∀ x, c.off = some x → -86400 < x.2 ∧ x.2 < 86400)
+    (offv off' : Int) (hoffv : ∀ x, c.off = some x → offv = roundedOffset x.2)
+    (hoffv' : -86400 ≤ offv ∧ offv ≤ 86400) (hoff' : -86400 < off' ∧ off' < 86400)
+    (text : List Nat) (hp : ∀ it ∈ is, provedItem it = true)
+    (hsep : separated is = true) (hg1 : groupUsable (carries is).year (carries is).yearDiv (carries is).yearMod = true)
+    (hg2 : groupUsable (carries is).isoYear (carries is).isoYearDiv (carries is).isoYearMod = true)
+    (hfd : fullDate (carries is) = true) (hft : fullTime (carries is) = true) (hsafe : spaceSafe is = true)
+    (hY : ∀ w, (dateOfYo Y o).iso_week = .ok w →
+      yearExpressible (carries is).year (carries is).yearDiv (carries is).yearMod (yearTouchesDigits .year is) Y ∧
+      yearExpressible (carries is).isoYear (carries is).isoYearDiv (carries is).isoYearMod
+        (yearTouchesDigits .isoYear is) (IsoWeek.year w))
+    (hEl : 1000000000 ≤ t.frac → t.secs % 60 = 59)
+    (hEf : ∀ it ∈ is, onSome (itemFracDigits it) fun k => cutFrac t.frac k = cutFrac t.frac (fracDigits is))
+    (hstampOff : (carries is).timestamp = true → off' = (c.off.map (·.2)).getD 0)
+    (hstampSec : (carries is).timestamp = true → (carries is).second = false → t.secs % 60 = 0)
+    (hfmt : Format.formatItemsR c.date c.time c.off is = Format.wok text) :
+    ∃ p', Parse.parse Parsed.new text is = .ok p' ∧
+      Parsed.to_naive_datetime_with_offset p' off' = .ok (.ok ⟨dateOfYo Y o, truncTime is t⟩) ∧
+      (∀ x, p'.offset = some x → x = offv) ∧ p'.offset.isSome = (carries is).offset ∧
+      p'.timestamp.isSome = (carries is).timestamp := by
+  obtain ⟨IY, IW, wd, ⟨w, hw, hwy, hwk⟩, hwd, hwdn, iy1, iy2, iw1, iw2⟩ := truth_date Y o hvd
+  obtain ⟨s1, s2, s3⟩ := ParsedRes.timestamp_spec Y o t hvd htv
+  obtain ⟨hYe, hIe⟩ := hY w hw
+  rw [hwy] at hIe
+  obtain ⟨hF, hnone, nv1, nv2⟩ := frac_conditions is t htv hft hEf
+  have hoffr : -86400 < (c.off.map (·.2)).getD 0 ∧ (c.off.map (·.2)).getD 0 < 86400 := by
+    cases ho : c.off with
+    | none => simp
+    | some x => simpa using hco x ho
+  let tr : Truth := ⟨Y, o, IY, IW, wd, t, (truncTime is t).frac % 1000000000, offv,
+    timestampIs.instSecsLocal ⟨dateOfYo Y o, t⟩ - (c.off.map (·.2)).getD 0⟩
+  have hcok : CtxOk c := ⟨fun d h => (by rw [hcd] at h; cases h; exact ⟨Y, o, hvd, rfl⟩),
+    fun t' h => (by rw [hct] at h; cases h; exact htv), hco⟩
+  have hc : CtxTruth c tr :=
+    ⟨fun d h => (by rw [hcd] at h; cases h; exact ⟨rfl, hvd, ⟨w, hw, hwy, hwk⟩, hwd⟩),
+     fun t' h => (by rw [hct] at h; cases h; exact ⟨rfl, htv⟩),
+     fun x h => ⟨hoffv x h, hco x h⟩,
+     fun v h => (by simp only [numVal, hcd, hct, s1] at h; simpa [tr] using h.symm)⟩
+  have hok : TruthOk tr := ⟨hvd, ⟨iy1, iy2⟩, ⟨iw1, iw2⟩, htv, ⟨nv1, nv2⟩, hoffv', hwdn, ⟨w, hw, hwy, hwk⟩⟩
+  obtain ⟨hexp, hx, hy⟩ := side_conditions c tr hc is hYe hIe hF
+  obtain ⟨p', hparse, hS, hT⟩ := fields_of_format c hcok tr hc hok is text hp hexp hx hsep hsafe hy hfmt
+  refine ⟨p', hparse, ?_, hS.offset, hT.offset, hT.timestamp⟩
+  obtain ⟨h1, h2, h3⟩ := time_of_supplied is p' tr hok hS hT hft hEl rfl hnone
+  have hts : -10000000000000 ≤ tr.tsv ∧ tr.tsv ≤ 10000000000000 := by simp only [tr]; omega
+  refine Chrono.Props.C14.datetime_complete_fields p' (inType_of_supplied p' tr hok hS hts) off' (by omega)
+    Y o (truncTime is t) hvd (dateAgrees_of_supplied p' tr hok hS)
+    (group_determinate _ _ _ _ _ _ Y hT.year hT.year_div hT.year_mod hg1 hYe.1)
+    (fun w' hw' => by
+      rw [hw] at hw'; cases hw'
+      rw [hwy]
+      exact group_determinate _ _ _ _ _ _ IY hT.isoyear hT.isoyear_div hT.isoyear_mod hg2 hIe.1)
+    (uses_of_tracks p' _ _ hT hfd) h1 h2 h3 ?_
+  intro g hg
+  left
+  have hcar : (carries is).timestamp = true := by rw [← hT.timestamp]; simp [hg]
+  have hg' : g = timestampIs.instSecsLocal ⟨dateOfYo Y o, t⟩ - (c.off.map (·.2)).getD 0 := hS.timestamp g hg
+  rw [hg', hstampOff hcar]
+  have hsecs : (truncTime is t).secs = t.secs := by
+    by_cases hs : (carries is).second = false
+    · have := hstampSec hcar hs
+      simp only [truncTime, hs, if_true]; omega
+    · simp [truncTime, hs]
+  simp only [timestampIs.instSecsLocal, hsecs]
+
+/-- **round trip, target `NaiveDateTime`**, formats with a full date and a full time (proved items) -/
+theorem family_naive (is : List Item) (Y : Int) (o : Nat) (hvd : VD Y o) (t : Time) (htv : TValid t)
+    (text : List Nat) (hp : ∀ it ∈ is, provedItem it = true) (hU : Unambiguous is .naive)
+    (hfd : fullDate (carries is) = true) (hft : fullTime (carries is) = true) (hsafe : spaceSafe is = true)
+    (hE : expressible is (.naive ⟨dateOfYo Y o, t⟩))
+    (hfmt : ParseFrom.formatItemsOf (.naive ⟨dateOfYo Y o, t⟩) is = Format.wok text) :
+    ∃ p', Parse.parse Parsed.new text is = .ok p' ∧
+      ParseFrom.resolve .naive p' = .ok (.ok (.naive ⟨dateOfYo Y o, truncTime is t⟩)) := by
+  obtain ⟨fy, _⟩ := date_facts Y o hvd
+  obtain ⟨_, hsep, hg1, hg2, _⟩ := hU
+  obtain ⟨hEy, hEl, _, hEs, hEf⟩ := hE
+  simp only [exprLeap, shown, onSome] at hEl
+  simp only [exprFrac, shown, onSome] at hEf
+  simp only [exprYears, shown, onSome, fy] at hEy
+  simp only [exprStamp, shown, onSome] at hEs
+  obtain ⟨p', h1, h2, _⟩ := family_datetime_core is Y o hvd t htv ⟨some (dateOfYo Y o), some t, none⟩ rfl rfl
+    (fun x h => by cases h) 0 0 (fun x h => by cases h) (by omega) (by omega) text hp hsep hg1 hg2 hfd hft hsafe
+    (fun w hw => by rw [hw] at hEy; exact hEy) hEl hEf (fun _ => rfl)
+    (fun hts hs => (hEs hts hfd hft).2 hs) hfmt
+  exact ⟨p', h1, by simp only [ParseFrom.resolve, h2, Parsed.RP.bind]⟩
+
+theorem rounded_of_whole (off : Int) (h : off % 60 = 0) : roundedOffset off = off := by
+  unfold roundedOffset; split <;> omega
+
+theorem rounded_range (off : Int) (h : -86400 < off ∧ off < 86400) :
+    -86400 ≤ roundedOffset off ∧ roundedOffset off ≤ 86400 := by
+  unfold roundedOffset; split <;> omega
+
+theorem to_datetime_of (p : Parsed) (off' : Int) (dt : NaiveDT)
+    (hsel : p.offset = some off' ∨ (p.offset = none ∧ p.timestamp ≠ none ∧ off' = 0))
+    (hn : Parsed.to_naive_datetime_with_offset p off' = .ok (.ok dt))
+    (he : Zoned.east_opt off' = some off') :
+    Parsed.to_datetime p =
+      match Zoned.from_local_datetime off' dt with
+      | .panic => .panic
+      | .ok none => .ok (.error .impossible)
+      | .ok (some t) => .ok (.ok t) := by
+  rcases hsel with h | ⟨h1, h2, rfl⟩
+  · simp only [Parsed.to_datetime, h, hn, Parsed.RP.bind, he]
+    cases Zoned.from_local_datetime off' dt with
+    | panic => rfl
+    | ok r => cases r <;> rfl
+  · cases hpt : p.timestamp with
+    | none => exact absurd hpt h2
+    | some g =>
+      simp only [Parsed.to_datetime, h1, hpt, hn, Parsed.RP.bind, he]
+      cases Zoned.from_local_datetime 0 dt with
+      | panic => rfl
+      | ok r => cases r <;> rfl
+
+/-- **round trip, target `DateTime<FixedOffset>`**, formats with a full date, a full time and an offset
+(or a timestamp) (proved items): the result is the local reading cut to the printed precision, put
+back at the printed (minute-rounded) offset — exactly `Spec.truncate_to_precision` -/
+theorem family_zoned (is : List Item) (z : Zoned) (Y : Int) (o : Nat) (hvd : VD Y o) (t : Time) (htv : TValid t)
+    (hl : z.overflowing_naive_local = .ok ⟨dateOfYo Y o, t⟩) (hzo : -86400 < z.off ∧ z.off < 86400)
+    (text : List Nat) (hp : ∀ it ∈ is, provedItem it = true) (hU : Unambiguous is .zoned)
+    (hfd : fullDate (carries is) = true) (hft : fullTime (carries is) = true)
+    (hot : (carries is).offset = true ∨ (carries is).timestamp = true) (hsafe : spaceSafe is = true)
+    (hE : expressible is (.zoned z))
+    (hfmt : ParseFrom.formatItemsOf (.zoned z) is = Format.wok text) :
+    ∃ p', Parse.parse Parsed.new text is = .ok p' ∧
+      ∀ v', truncate_to_precision is (.zoned z) = some v' → ParseFrom.resolve .zoned p' = .ok (.ok v') := by
+  obtain ⟨fy, _⟩ := date_facts Y o hvd
+  obtain ⟨_, hsep, hg1, hg2, _⟩ := hU
+  obtain ⟨hEy, hEl, hEo, hEs, hEf⟩ := hE
+  simp only [exprLeap, shown, hl, onSome] at hEl
+  simp only [exprFrac, shown, hl, onSome] at hEf
+  simp only [exprYears, shown, hl, onSome, fy] at hEy
+  simp only [exprStamp, shown, hl, onSome] at hEs
+  simp only [exprOffset, shown, hl, onSome] at hEo
+  simp only [ParseFrom.formatItemsOf, hl, Format.W.ofRes] at hfmt
+  generalize hoff' : (if (carries is).offset = true then roundedOffset z.off else 0) = off'
+  have hr1 : -86400 < off' ∧ off' < 86400 := by
+    rw [← hoff']
+    by_cases ho : (carries is).offset = true
+    · rw [if_pos ho]; exact hEo ho
+    · rw [if_neg ho]; omega
+  have hstampOff : (carries is).timestamp = true → off' = z.off := by
+    intro hts
+    have := (hEs hts hfd hft).1
+    rw [← hoff']
+    by_cases ho : (carries is).offset = true
+    · rw [if_pos ho] at this ⊢; exact rounded_of_whole _ this
+    · rw [if_neg ho] at this ⊢; exact this.symm
+  obtain ⟨p', h1, h2, hoS, hoI, htI⟩ := family_datetime_core is Y o hvd t htv
+    ⟨some (dateOfYo Y o), some t, some (Format.fixedOffsetName z.off, z.off)⟩ rfl rfl
+    (fun x h => by cases h; exact hzo) (roundedOffset z.off) off' (fun x h => by cases h; rfl)
+    (rounded_range z.off hzo) hr1 text hp hsep hg1 hg2 hfd hft hsafe
+    (fun w hw => by rw [hw] at hEy; exact hEy) hEl hEf hstampOff
+    (fun hts hs => (hEs hts hfd hft).2 hs) hfmt
+  refine ⟨p', h1, fun v' hv' => ?_⟩
+  have hoffsel : p'.offset = some off' ∨ (p'.offset = none ∧ p'.timestamp ≠ none ∧ off' = 0) := by
+    by_cases ho : (carries is).offset = true
+    · rw [ho] at hoI
+      cases hpo : p'.offset with
+      | none => rw [hpo] at hoI; cases hoI
+      | some x =>
+        have := hoS x hpo
+        left; rw [← hoff', if_pos ho, this]
+    · have hto : (carries is).timestamp = true := by
+        rcases hot with h | h
+        · exact absurd h ho
+        · exact h
+      have ho' : (carries is).offset = false := by simpa using ho
+      rw [ho'] at hoI
+      rw [hto] at htI
+      exact Or.inr ⟨(isSome_false_iff _).mp hoI, (isSome_true_iff _).mp htI, by rw [← hoff', if_neg ho]⟩
+  have heast : Zoned.east_opt off' = some off' := by
+    unfold Zoned.east_opt; rw [if_pos hr1]
+  simp only [truncate_to_precision, hfd, hft, Bool.and_self, if_true, hl, hoff'] at hv'
+  simp only [ParseFrom.resolve, to_datetime_of p' off' _ hoffsel h2 heast]
+  cases hfl : Zoned.from_local_datetime off' ⟨dateOfYo Y o, truncTime is t⟩ with
+  | panic => rw [hfl] at hv'; cases hv'
+  | ok r =>
+    rw [hfl] at hv'
+    cases r with
+    | none => cases hv'
+    | some z' => cases hv'; rfl
 
 end Chrono.Proofs.RoundTrip
